@@ -24,6 +24,7 @@ RULES = {
   ("translate_sixel_to_pixel|S6|rem0(", "reviewed", "the sixel palette is created with the 16 default colours and only grows (set/insert); it is never cleared"),
   ("translate_sixel_to_pixel|S2|index_mut(&*index_mut(", "reviewed", "row lengths are always multiples of 4 (vec![0; width*4] / resize((x+1)*4)), so len > 4x implies len >= 4x+4; sixel_cursor.x is only reset to 0 or incremented"),
   ("translate_sixel_to_pixel|S2|index_mut(&*self.picture_data, (((*self.sixel_cursor.y * 6) + (next(&iter) as Some).0) as usize)) #lower", "reviewed", "only non-negativity is unproven: sixel_cursor.y starts at 0 and is only incremented"),
+  ("translate_sixel_to_pixel|S9u|overflow:Sub((ch as u8), 63)", "reviewed", "its only caller parse_sixel_data returns early for ch > '\\x7F' and the function itself rejects ch < '?': 63 <= ch <= 127, the cast to u8 is exact and the subtraction cannot go below zero (the cast hides the bound from the lifted precondition)"),
   ("SixelParser::parse_char|S3|resize(", "reviewed", "parsed_numbers entries are >= 0: built by parse_next_number from 0 with saturating arithmetic on digits only"),
   # ---- genuine defects (DESIGN §6; reproduced against the pristine tree)
  ],
@@ -98,6 +99,8 @@ EMBEDDED = "runs once on data embedded in the crate with include_bytes! / a buil
 VIEWPORT = ("RIP_VIEWPORT (|v) accepts any rectangle: with a viewport that does not start at row 0 or that exceeds the 640x350 canvas "
             "(e.g. |v0000ZZZZ) the flood-fill helpers index the canvas / the per-row line table (sized by the viewport height, indexed by absolute y) out of range")
 RULES["C20"] = [
+  ("rip::to_base_36|S9u|overflow:Sub(((number % 36) as u8), 10)", "reviewed", "the subtraction sits in the else-branch of `num2 < 10`, so num2 >= 10 (the signed-to-unsigned cast of number % 36 keeps no term of its own for the branch to refine)"),
+  ("Bgi::fill_scan|S9u|overflow:Sub(len(&*rows), 2)", "reviewed", "rows is always create_scan_rows() = vec![Vec::new(); 352]; scan_ellipse / scan_line / add_scan_row only push into the inner rows, the outer length stays 352"),
   # ---------------------------------------------------------------- IGS: genuine
   ("execute_command|S1|bounds(len(parameters), (len(&*parameters) - 2))", "known", "IGS PolyLine with a point count of 0 (`G#z 0:`): parameters[len - 2] with len == 1"),
   ("execute_command|S1|bounds(len(parameters), 0)", "known", "IGS TimeAPause (`G#t:`) reads parameters[0] without a length check"),
